@@ -109,7 +109,7 @@ class Pop:
         return repr((self.con, self.dirs, self.pool, self.pop))
 
     def build(self):
-        p = plat.mk_problem(len(self.dirs), self.dirs, nconstrs=self.con)
+        p = plat.mk_problem_sticky(len(self.dirs), self.dirs, nconstrs=self.con)
         objs = []
         for i, (o, c) in enumerate(self.pool):
             s = plat.mk_solution(p, [XF(v) for v in o], c)
